@@ -122,6 +122,7 @@ type Interp struct {
 	allocHook  func(n *Term)
 	digitCache map[*Term]StrV
 	digitList  []*Term
+	digitSigned map[*Term]bool
 	lastNow    *Term
 	firstNow   *Term
 	symNames   map[string]StrV
@@ -134,6 +135,7 @@ type Interp struct {
 	pid        *Term
 	held       map[string][]byte
 	track      *trackState
+	fs         *fsModel
 
 	// work sharing: the coordinator cuts paths after frontierDepth forking
 	// decisions and records the decision prefixes; workers explore below a pinned
@@ -197,6 +199,7 @@ func (in *Interp) resetPath() {
 	in.sums = nil
 	in.digitCache = map[*Term]StrV{}
 	in.digitList = nil
+	in.digitSigned = nil
 	in.symNames = nil
 	in.lastSec, in.firstSec, in.unixOf = nil, nil, nil
 	in.lastNow = nil
@@ -204,6 +207,7 @@ func (in *Interp) resetPath() {
 	in.clockWindow = nil
 	in.pid = nil
 	in.held, in.track = nil, nil
+	in.fs = nil
 }
 
 // RunHarness explores all paths of the harness function.
